@@ -148,6 +148,12 @@ pub enum FaultKind {
     /// the error is reported inside the operation's results element, below a per-routing-engine element
     /// (`<commit-results><routing-engine><name>re0</name><rpc-error>..`), as Junos reports a failed commit
     NestedError,
+    /// one routing engine reports success, the next one an error: `<commit-results><routing-engine>..<commit-success/>
+    /// </routing-engine><routing-engine>..<rpc-error>..` (the wrapper is the operation's results element)
+    PartialSuccess,
+    /// the summary of a load contradicts its body: an `<rpc-error>` of severity error with `<load-error-count>0`
+    /// (0), or a bare `<load-error-count>0` without `<ok/>` (1) - neither is a positive acknowledgement
+    Miscounted(u8),
 }
 
 #[derive(Debug, Clone)]
@@ -384,6 +390,24 @@ fn serve(accept: impl FnOnce() -> Option<Box<dyn AgentConn>>, scn: &Scenario) ->
                     _ => "results",
                 };
                 send(&mut conn, reply(&id, &format!("<{wrapper}><routing-engine><name>re0</name>{ERR}</routing-engine></{wrapper}>")));
+            }
+            Some(FaultKind::PartialSuccess) => {
+                out.acked[idx] = Some(false);
+                let (wrapper, marks) = match op.name.as_str() {
+                    "load-configuration" => ("load-configuration-results", "<ok/>"),
+                    "commit-configuration" => ("commit-results", "<commit-check-success/><commit-success/>"),
+                    _ => ("results", "<ok/>"),
+                };
+                send(&mut conn, reply(&id, &format!("<{wrapper}><routing-engine><name>re0</name>{marks}</routing-engine><routing-engine><name>re1</name>{ERR}</routing-engine></{wrapper}>")));
+            }
+            Some(FaultKind::Miscounted(t)) => {
+                out.acked[idx] = Some(false);
+                let body = match (is_load, t) {
+                    (true, 0) => format!("<load-configuration-results>{ERR}<load-error-count>0</load-error-count></load-configuration-results>"),
+                    (true, _) => "<load-configuration-results><load-error-count>0</load-error-count></load-configuration-results>".to_string(),
+                    (false, _) => ERR.to_string(),
+                };
+                send(&mut conn, reply(&id, &body));
             }
             Some(FaultKind::RpcErrorWhileNextSendBlocked) => {
                 out.acked[idx] = Some(false);
@@ -743,7 +767,7 @@ pub fn run_c04(report: &mut Report) {
             continue;
         }
         report.sample(json!({"fault_free_run": {"N": n, "requests": rec.rpcs, "exit": rec.exit}}));
-        let mut kinds = vec![FaultKind::RpcError, FaultKind::MixedSeverity, FaultKind::Malformed, FaultKind::UnknownId, FaultKind::StaleId, FaultKind::CloseBefore, FaultKind::CloseAfter, FaultKind::Busy(0), FaultKind::Busy(1), FaultKind::NestedError];
+        let mut kinds = vec![FaultKind::RpcError, FaultKind::MixedSeverity, FaultKind::Malformed, FaultKind::UnknownId, FaultKind::StaleId, FaultKind::CloseBefore, FaultKind::CloseAfter, FaultKind::Busy(0), FaultKind::Busy(1), FaultKind::NestedError, FaultKind::PartialSuccess, FaultKind::Miscounted(0), FaultKind::Miscounted(1)];
         if thorough {
             kinds.push(FaultKind::Busy(2));
         }
@@ -897,7 +921,7 @@ pub fn run_c04(report: &mut Report) {
     report.set("distinct_nontrivial", distinct.len() as u64);
     report.set("agent_runs", evaluations);
     report.set("exhaustive", true);
-    report.set("rule", "the real agent (one-shot, local target through the stand-in cli; a slice with N = 1 also through the remote TLS target) against a fake Junos NETCONF server and a fake IRRd; N managed policies for N in the stated range, starting from an empty instance and from one that holds a policy that is no longer managed (its delete is one more load); one fault per run at every position of the request sequence open, get-config x2, load x N, commit, close-configuration, close-session, of every kind {rpc-error, warning+error rpc-errors, malformed reply, reply with an unknown message-id, reply re-using an earlier message-id, connection close before the reply, close after the reply}, plus failing load replies delayed until every later load was received, and (slow uplink, loads larger than the pipe) failing load replies that arrive while the agent is blocked writing the next load; distinct = (N, position, kind); oracle over (exit status, request list as seen by the server)");
+    report.set("rule", "the real agent (one-shot, local target through the stand-in cli; a slice with N = 1 also through the remote TLS target) against a fake Junos NETCONF server and a fake IRRd; N managed policies for N in the stated range, starting from an empty instance and from one that holds a policy that is no longer managed (its delete is one more load); one fault per run at every position of the request sequence open, get-config x2, load x N, commit, close-configuration, close-session, of every kind {rpc-error, warning+error rpc-errors, malformed reply, reply with an unknown message-id, reply re-using an earlier message-id, connection close before the reply, close after the reply, resource-taken answers repeated for later requests, an error below <commit-results><routing-engine>, one routing engine reporting success and the next an error, a load whose <load-error-count> is 0 although it carries an error / no <ok/>}, plus failing load replies delayed until every later load was received, and (slow uplink, loads larger than the pipe) failing load replies that arrive while the agent is blocked writing the next load; distinct = (N, position, kind); oracle over (exit status, request list as seen by the server)");
     report.assume("the fake Junos answers as the repository's fixtures and the Junos XML protocol documentation describe");
 }
 
@@ -1302,7 +1326,7 @@ pub fn c02_slice(report: &mut Report) -> u64 {
     let mut runs = 0;
     // the agent's own ephemeral instance could not be opened (every way of being refused): whatever it writes
     // afterwards lands in another database
-    for kind in [FaultKind::RpcError, FaultKind::MixedSeverity, FaultKind::Busy(0), FaultKind::NestedError, FaultKind::Malformed] {
+    for kind in [FaultKind::RpcError, FaultKind::MixedSeverity, FaultKind::Busy(0), FaultKind::NestedError, FaultKind::PartialSuccess, FaultKind::Miscounted(0), FaultKind::Malformed] {
         let running: Vec<RunningStmt> = [("pol-a", "AS-A")].iter().map(|(n, e)| managed_stmt(n, e)).collect();
         let scn = Scenario { instance_name: Some("verif-instance-7".into()), running, ephemeral: Instance::default(), fault: Some((0, kind)), expected_loads: 1, irr_plan: Plan::default() };
         let rec = run_agent(&scn, &irrd, &format!("C02-refused-{kind:?}"));
